@@ -371,7 +371,11 @@ def gen_ext_late(rng, hb=0.004):
     else:
         script += [('login', 2), ('turns', 2)] + cut_stream([('msg', 0)], codec, rng, 'whole') + [('advance', 0.0003)]
         script += [('paused_recv', 11), ('turns', rng.randint(3, 6))]
-    script += cut_stream(msgs(rng.randint(1, 3)), codec, rng, rng.choice(['whole', 'per-frame']))
+    closing = rng.random() < 0.4
+    if closing:
+        # the callback that gets the handed-back message closes the session: nothing queued behind it may be delivered afterwards
+        cfg['msg_beh'][nxt[0]] = rng.choice(['close', 'close', 'iclose', ('sleep_close', 0)])
+    script += cut_stream(msgs(rng.randint(2, 4) if closing else rng.randint(1, 3)), codec, rng, rng.choice(['whole', 'per-frame']))
     script += late_window(rng, exact=rng.random() < 0.85) + [('cancel', 11), ('turns', rng.randint(0, 2))]
     if flavour == 'startdisp':
         script += [('startdisp',)]
